@@ -32,7 +32,17 @@ def scenarios(quick):
         fns = [[fn(d, "R0", "E2", True) for d in ds] + [fn(1, "R1")] * 2]
         out.append(scenario([retry(1, dly=1), hg(1, D, c=[cR("R1")])], fns, [start(1)]))
         out.append(scenario([retry(1, dly=3), hg(1, D, c=[cR("R1")], delays=[1, 2])], fns, [start(1)]))
-    from seq import cT
+    # an attempt that fails with context.Canceled on its own account (nobody cancelled anything) is a result like any other;
+    # a typed error behind a nil slot of a hand-written multi-error matches a type condition
+    from seq import leaf, cT
+    JN = lambda x: dict(op="JN", ch=[leaf(x)])
+    for ds in itertools.product([0, 1, 3], repeat=2):
+        for e1, e2 in (("CtxCanceled", "E1"), ("E1", "CtxCanceled")):
+            fns = [[fn(ds[0], "R0", e1, True), fn(ds[1], "R0", e2, True), fn(1, "R1")]]
+            out.append(scenario([hg(1, D)], fns, [start(1)]))
+            out.append(scenario([hg(1, D, c=[cE("CtxCanceled"), cE("E2")])], fns, [start(1)]))
+        fns = [[dict(fn(ds[0], "R0", "E1", True), e=JN("TV")), dict(fn(ds[1], "R0", "E1", True), e=JN("E1")), fn(1, "R1")]]
+        out.append(scenario([hg(1, D, c=[cT("TV")])], fns, [start(1)]))
     for ds in itertools.product([0, 1, 3], repeat=2):
         for e1, e2 in (("TV", "E1"), ("E1", "TV"), ("TP", "TV")):
             fns = [[fn(ds[0], "R0", e1, True), fn(ds[1], "R0", e2, True), fn(1, "R1")]]
